@@ -263,6 +263,10 @@ class BlockSeries:
                     raise IndexError("Cannot evaluate infinite series")
                 if isinstance(order.start, int) and order.start < 0:
                     raise IndexError("Cannot evaluate negative order")
+            elif isinstance(order, (int, np.integer, list, np.ndarray)) and np.any(
+                np.asarray(order) < 0
+            ):
+                raise IndexError("Cannot evaluate negative order")
 
     def _check_number_perturbations(self, item: tuple[OneItem, ...]):
         """Check that the number of indices is correct.
